@@ -27,7 +27,9 @@ T0 = time.time()
 RAFTSIM_SRC = os.path.join(common.ROOT, "raftsim")
 ATTACK_FILE = os.path.join(common.SPEC, "EtcdRaft_attacks.json")
 FLAGS_CHEAP = ["VoteIgnoreVoted", "NoPersistVote", "VoteIgnoreLog", "QuorumMinusOne"]
-FLAGS_ALL = FLAGS_CHEAP + ["HeartbeatCommit", "AppendTruncates", "CommitAnyTerm"]
+# CommitAnyTerm is regenerated only with C15_REGEN_ALL=1 (1.7 M states, 2-10 min depending on load); the stored
+# schedule in spec/EtcdRaft_attacks.json is always replayed
+FLAGS_ALL = FLAGS_CHEAP + ["HeartbeatCommit", "AppendTruncates"] + (["CommitAnyTerm"] if os.environ.get("C15_REGEN_ALL") else [])
 ATTACK_OPT = {"CommitAnyTerm": {"maxents": 1}}
 
 
